@@ -116,7 +116,12 @@ def trivia_selected_comments(src, node, opts):
                     break
                 ln += 1
     if not lead.startswith('none'):
-        ln = node.lineno - 1
+        first_ln = node.lineno
+        col0 = len(lines[node.lineno - 1].encode()[:node.col_offset].decode())
+        prev = [t_ for t_ in toks if t_.type == tokenize.OP and (t_.end[0], t_.end[1]) <= (node.lineno, col0)]
+        if prev and prev[-1].string == '@':
+            first_ln = prev[-1].start[0]   # a decorator starts at its '@'
+        ln = first_ln - 1
         while ln >= 1 and ln not in code_lines:
             if ln in comments:
                 out[comments[ln]] += 1
